@@ -321,7 +321,13 @@ func (e *Engine) Load(name string) (*Template, error) {
 	// Only cache if caching is enabled
 	if e.environment.cache {
 		e.mu.Lock()
-		e.templates[name] = template
+		if current, ok := e.templates[name]; ok && current.loader == nil {
+			// The name was registered while the loaders were being read: the
+			// registration is the source the engine was told to use
+			template = current
+		} else {
+			e.templates[name] = template
+		}
 		e.mu.Unlock()
 	}
 
